@@ -110,6 +110,8 @@ def run_wire(v, args, what, timeout, tag, variant="plain"):
         v.violation("%s: the harness did not finish within %d s (hang in the real code?)" % (what, timeout), {"cmd": args, "stderr": err[-2000:]}, tag=tag + "_hang")
         return rows, (summ[0] if summ else {"aborted": True})
     if rc != 0 or not summ: raise vlib.MachineryError("%s: wire failed rc=%s: %s %s" % (what, rc, out[-500:], err[-1500:]))
+    for r in rows:      # a helper process that died (sanitizer report in a C codec, Python traceback): keep what it said
+        if any("helper died" in x for x in r.get("violations", [])): r["helper_stderr"] = err[-3000:]
     return rows, summ[0]
 
 
@@ -160,6 +162,25 @@ def validate_trace(path, tag, deviations=(), timeout=1500, heap="3g"):
             "detail": r.printed[-1] if r.printed else None}
 
 
-def validate_trace_slot(sem, path, tag, deviations=(), timeout=1500, heap="3g"):
-    """validate_trace under the caller's limit on concurrent TLC processes"""
-    with sem: return validate_trace(path, tag, deviations=deviations, timeout=timeout, heap=heap)
+def validate_trace_slot(sem, path, tag, deviations=(), timeout=1500, heap="3g", chunk=8000):
+    """validate_trace under the caller's limit on concurrent TLC processes.  A long trace is cut (before a line that starts a new case) into pieces of
+    about `chunk` lines that are validated one after the other: TLC holds the whole deserialised file in memory."""
+    nlines = sum(1 for _ in open(path))
+    if nlines <= chunk * 3 // 2:
+        with sem: return validate_trace(path, tag, deviations=deviations, timeout=timeout, heap=heap)
+    pieces = split_trace(path, (nlines + chunk - 1) // chunk)
+    tot = {"lines": nlines, "accepted": True, "first_rejected": None, "status_differs": 0, "pyok": 0, "pynative": 0, "F38": 0, "F39": 0, "wall": 0.0, "detail": None}
+    offset = 0
+    try:
+        for k, (pf, n) in enumerate(pieces):
+            with sem: r = validate_trace(pf, "%s_p%d" % (tag, k), deviations=deviations, timeout=timeout, heap=heap)
+            for key in ("status_differs", "pyok", "pynative", "F38", "F39", "wall"): tot[key] += r[key]
+            if not r["accepted"]:
+                tot["accepted"] = False; tot["first_rejected"] = offset + r["first_rejected"]; tot["detail"] = r["detail"]
+                break
+            offset += n
+    finally:
+        for pf, _ in pieces:
+            try: os.remove(pf)
+            except OSError: pass
+    return tot
